@@ -223,6 +223,11 @@ def client_encode(q: str, k: Consts, plus_for_space: bool) -> str:
     return "".join(out)
 
 
+def client_encode_path(sel: str, k: Consts) -> str:
+    """A selector as a URL path (what urllib.parse.quote(selector) yields): mirror of Links!PctQuote."""
+    return "".join(chr(b) if (chr(b) in _SAFE or chr(b) == "/") else "%%%02X" % b for b in conc(sel, k.hi_byte))
+
+
 def root_ref(p, k: Consts) -> str:
     return "" if p in GOPHER_VIEWS else (k.waptop + "/" if p == "W" else "/")
 
@@ -550,14 +555,15 @@ def crawl(w, p, k: Consts, query="q", limit=60):
                 rq2 = follow(p, t, base, q, k)
                 r = send(w, rq2, k)
                 c = classify(p, r, k)
-                chain.append({"line": rq2["line"], "cls": c["cls"]})
+                chain.append({"line": rq2["line"], "cls": c["cls"],
+                              "loc": (redirect_target(r) if c["cls"] == "redirect" else "")})
                 if c["cls"] == "redirect":
                     here = ref_path(base, t["href"])
                     rq3 = {"line": "gemini://" + k.server_name + ref_path(here, redirect_target(r)) + "\r\n",
                            "rest": "", "tls": True}
                     r = send(w, rq3, k)
                     c = classify(p, r, k)
-                    chain.append({"line": rq3["line"], "cls": c["cls"]})
+                    chain.append({"line": rq3["line"], "cls": c["cls"], "loc": ""})
             events.append({"ev": "follow", "base": base, "i": i, "q": q, "req": rq, "chain": chain,
                            "cls": c["cls"], "obj": c["obj"], "lexed": c["entries"] is not None or c["obj"] != "menu"})
             concrete.append({"rq": rq, "out": r.out[:400].decode("latin-1"), "log": r.log[-2:], "escaped": r.escaped})
